@@ -19,6 +19,7 @@ import (
 	"fmt"
 	"go/token"
 	"go/types"
+	"strings"
 
 	"golang.org/x/tools/go/ssa"
 )
@@ -618,6 +619,10 @@ func isDstValueRec(v ssa.Value, top *ssa.Function, seen map[ssa.Value]bool) bool
 		return true
 	case *ssa.Call:
 		if bi, ok := x.Common().Value.(*ssa.Builtin); ok && "append" == bi.Name() {
+			return isDstValueRec(x.Common().Args[0], top, seen)
+		}
+		/* The same elements with room reserved for what is to come. */
+		if n := calleeName(x.Common()); "slices.Grow" == n || strings.HasPrefix(n, "slices.Grow[") {
 			return isDstValueRec(x.Common().Args[0], top, seen)
 		}
 		return false
